@@ -211,7 +211,16 @@ func cmdDraw(args []string) {
 			}
 		}
 		if len(rejected) >= 1 { // long chains of rejected words: 9 and 13 in a row, then an ordinary word
-			for _, k := range []int{9, 13} {
+			// ... and much longer ones (a redraw loop that gives up, or changes behaviour, after some number of rejected
+			// words): two rungs of the ladder per bound in rotation, the whole ladder for a few bounds
+			ks := []int{9, 13, chainLadder[nb%len(chainLadder)], chainLadder[(nb*7+3)%len(chainLadder)]}
+			if n == 3 || n == 62 || n == 18325 || n == 3<<30 || n == 1<<31+12345 {
+				ks = append([]int{9, 13}, chainLadder...)
+				if n == 3<<30 {
+					ks = append(ks, 2049, 4097)
+				}
+			}
+			for _, k := range ks {
 				words := []uint32{}
 				for j := 0; j < k; j++ {
 					words = append(words, rejected[j%len(rejected)])
@@ -222,6 +231,38 @@ func cmdDraw(args []string) {
 				tail := words[k:]
 				res2, used2, kind2 := drawOnce(n, tail)
 				em.Emit(mkDrawEv(n, tail, res2, used2, kind2))
+			}
+		}
+		if uint64(n)*2 > 1<<32 {
+			// above half the range every alternative can have at most ONE raw value (two each would need 2n > 2^32 values):
+			// x and x+n presented at the same position (first, or after k rejected words) must not both be accepted
+			depths := []int{0}
+			if len(rejected) >= 1 {
+				depths = append(depths, 1, 2, 8, 16, 17, 32, 33, 64, 65, 128, 129, 256, 257, 1000, 1024, 1025)
+			}
+			room := uint64(1<<32) - uint64(n) // x + n < 2^32  <=>  x < room
+			xs := []uint64{0, 1, 2, room - 1, room / 2, uint64(rng.Int63n(int64(room)))}
+			for _, k := range depths {
+				prefix := []uint32{}
+				for j := 0; j < k; j++ {
+					prefix = append(prefix, rejected[j%len(rejected)])
+				}
+				for _, x := range xs {
+					if x >= room {
+						continue
+					}
+					w1 := append(append([]uint32{}, prefix...), uint32(x))
+					w1 = append(w1, fol()...)
+					w2 := append(append([]uint32{}, prefix...), uint32(x+uint64(n)))
+					w2 = append(w2, w1[k+1:]...)
+					r1, u1, k1 := drawOnce(n, w1)
+					r2, u2, k2 := drawOnce(n, w2)
+					em.Emit(map[string]interface{}{"op": "pair", "n": LimbsU64(uint64(n)), "k": k, "w1": LimbsU64(x), "w2": LimbsU64(x + uint64(n)),
+						"used1": u1, "used2": u2, "kind1": k1, "kind2": k2, "res1": LimbsU64(uint64(r1)), "res2": LimbsU64(uint64(r2))})
+					if k > 64 {
+						break // one pair per deep position
+					}
+				}
 			}
 		}
 		if len(rejected) >= 2 {
@@ -257,6 +298,9 @@ func cmdDraw(args []string) {
 	}
 	json.NewEncoder(os.Stdout).Encode(map[string]interface{}{"events": tot, "bounds": len(bounds)})
 }
+
+// numbers of consecutive rejected words presented before an ordinary one
+var chainLadder = []int{16, 17, 18, 24, 31, 32, 33, 48, 63, 64, 65, 100, 127, 128, 129, 200, 255, 256, 257, 500, 512, 513, 1000, 1024, 1025}
 
 func maxU32(a, b uint32) uint32 {
 	if a > b {
